@@ -67,11 +67,67 @@ pub const ENGINE_ID: u64 = 8;
 /// The spec of run seed `rs` for this engine: a seeded spec of moderate size with a large
 /// `num_free_blocks` (the builder's working window is `block_len * num_free_blocks` elements,
 /// allocated up front), and the threshold that refuses exactly allocations of that order.
+/// A pattern set whose double-array layout depends on how far back the builder may look for
+/// vacant elements: a few dozen to a few hundred states with many (but far from all) possible
+/// children - they spread over more blocks than the default window and leave them half empty -
+/// followed by thousands of single-child chains that fill such gaps while the blocks are still
+/// within the window.
+fn gappy_spec(rng: &mut crate::rng::Rng) -> Spec {
+    use crate::pma::{Entry, Kind, VType};
+    let variant = if rng.chance(1, 2) { Variant::Bytewise } else { Variant::Charwise };
+    // alphabet: single bytes 1..=126, or (char-wise half of the time) 150-400 characters from U+0100 on
+    let alpha: Vec<Vec<u8>> = if variant == Variant::Charwise && rng.chance(1, 2) {
+        let n = rng.range(150, 400);
+        (0..n).filter_map(|i| char::from_u32(0x100 + i as u32)).map(|c| c.to_string().into_bytes()).collect()
+    } else {
+        (1u8..=126).map(|b| vec![b]).collect()
+    };
+    let groups = rng.range(40, 160).min(alpha.len() - 2);
+    let per_group = rng.range(alpha.len() / 5, alpha.len() / 2).max(8);
+    let chains = rng.range(1500, 4000);
+    let chain_len = rng.range(4, 6);
+    let mut set = std::collections::BTreeSet::new();
+    let wide_marker = alpha[alpha.len() - 1].clone();
+    let chain_marker = alpha[alpha.len() - 2].clone();
+    for g in 0..groups {
+        for _ in 0..per_group {
+            let mut p = wide_marker.clone();
+            p.extend_from_slice(&alpha[g]);
+            p.extend_from_slice(&alpha[rng.below(alpha.len() - 2)]);
+            set.insert(p);
+        }
+    }
+    for _ in 0..chains {
+        let mut p = chain_marker.clone();
+        for _ in 0..chain_len {
+            p.extend_from_slice(&alpha[rng.below(alpha.len() - 2)]);
+        }
+        set.insert(p);
+    }
+    let mut patterns: Vec<Vec<u8>> = set.into_iter().collect();
+    if rng.chance(1, 2) {
+        rng.shuffle(&mut patterns);
+    }
+    let n = patterns.len();
+    Spec {
+        variant,
+        kind: *rng.pick(&[Kind::Standard, Kind::Standard, Kind::LeftmostLongest, Kind::LeftmostFirst]),
+        num_free_blocks: crate::pma::DEFAULT_NFB,
+        entry: Entry::WithValues,
+        vtype: *rng.pick(&[VType::U32, VType::U64, VType::U16]),
+        patterns,
+        values: (0..n as u64).collect(),
+        ctor: false,
+    }
+}
+
 pub fn spec_for(rs: u64) -> (Spec, u32, usize) {
-    let mut spec = crate::threads::generate_big_spec(rs);
+    let mut grng = crate::rng::Rng::new(rs ^ 0x6A99);
+    let gappy = grng.chance(2, 3);
+    let mut spec = if gappy { gappy_spec(&mut grng) } else { crate::threads::generate_big_spec(rs) };
     let mut salt = 1u64;
     // layouts that depend on the window need several blocks; keep the children cheap
-    while (spec.patterns.len() < 150 || spec.patterns.len() > 3000 || spec.patterns.iter().any(|p| p.len() > 3000)) && salt < 12 {
+    while !gappy && (spec.patterns.len() < 150 || spec.patterns.len() > 3000 || spec.patterns.iter().any(|p| p.len() > 3000)) && salt < 12 {
         spec = crate::threads::generate_big_spec(rs ^ (salt << 40));
         salt += 1;
     }
@@ -147,6 +203,7 @@ struct Local {
     died: u64,
     errored: u64,
     no_refusal: u64,
+    window_sensitive: u64,
     lines: Vec<(u64, String)>,
     fail: Option<(u64, u64, serde_json::Value)>,
     samples: Vec<serde_json::Value>,
@@ -185,6 +242,11 @@ pub fn cli(args: &[String]) -> i32 {
     let locals: Vec<Local> = batch::run_batch(&b, |k, rs, l: &mut Local| {
         let (spec, nfb, threshold) = spec_for(rs);
         let reference = image_hash_nfb(&spec, nfb);
+        // does the layout of this automaton depend on the size of the window at all?
+        let sensitive = image_hash_nfb(&spec, crate::pma::DEFAULT_NFB) != reference;
+        if sensitive {
+            l.window_sensitive += 1;
+        }
         batch::heartbeat();
         let (got, refused, _ok) = run_child(rs, None);
         l.runs += 1;
@@ -233,6 +295,7 @@ pub fn cli(args: &[String]) -> i32 {
         tot.died += l.died;
         tot.errored += l.errored;
         tot.no_refusal += l.no_refusal;
+        tot.window_sensitive += l.window_sensitive;
         lines.extend(l.lines);
         samples.extend(l.samples);
         if let Some(f) = l.fail {
@@ -261,7 +324,7 @@ pub fn cli(args: &[String]) -> i32 {
     let doc = json!({
         "engine": "E2-allocfail", "seed": seed, "runs": tot.runs, "evaluations": tot.runs,
         "builds_completed": tot.completed, "builds_completed_after_a_refused_allocation": tot.completed_after_refusal,
-        "builds_aborted": tot.died, "builds_returning_an_error": tot.errored, "builds_without_refusal": tot.no_refusal,
+        "builds_aborted": tot.died, "builds_returning_an_error": tot.errored, "builds_without_refusal": tot.no_refusal, "specs_whose_layout_depends_on_the_window": tot.window_sensitive,
         "samples": samples, "wall_s": wall, "violations": if fail.is_some() { 1 } else { 0 }, "replay": replay,
     });
     if let Some(dir) = std::path::Path::new(&out).parent() {
